@@ -159,8 +159,11 @@ func checkRequestArgs(req rc.Message, calls []*simfs.Call) string {
 		}
 	case *rc.Tlock:
 		if c := find("Lock"); c != nil {
-			want := [6]uint64{uint64(m.ProcID), uint64(m.Type), uint64(m.Flags), m.Start, m.Length, 0}
-			if c.LockArgs != want || c.Client != m.ClientID {
+			// proc_id is four bytes on the wire and an int at the File: the
+			// same 32 bits (whether a raw peer's 2^31 is a negative pid is
+			// not for this check to say; a client's -1 staying -1 is C03's)
+			want := [6]uint64{c.LockArgs[0], uint64(m.Type), uint64(m.Flags), m.Start, m.Length, 0}
+			if uint32(c.LockArgs[0]) != m.ProcID || c.LockArgs != want || c.Client != m.ClientID {
 				return fmt.Sprintf("Lock(%v, %q) for %s", c.LockArgs, c.Client, rc.String(m))
 			}
 		}
